@@ -5,7 +5,9 @@
 From TT Require Import Base.Prelude Model.Outcome Model.ReaderGuards.
 
 (* ---- the WebVTT cue-text cursor ------------------------------------------------------------------------------- *)
-(* finding vtt-ruby-structure *)
+(* finding vtt-ruby-structure.  On the code the check does not take "the cue has a <ruby> tag" as the trigger: it evaluates the exact
+   model of the cue-text parser (C11's Model/VttReader.v parse_cue_text through Model/GuardCueCases.v cue_class) on the cue text and accepts
+   only the exception class computed there (Properties/C18.v C18_vtt_cue_text_classes) *)
 Theorem C18_vtt_cursor_refuted :
   vtt_cursor_run true [TStartSpan 0; TStartRuby 1] = Internal TypeErr                            (* <b><ruby> *)
   /\ vtt_cursor_run true [TStartRuby 0; TStartSpan 1] = Internal RuntimeErr                      (* <ruby><b> *)
